@@ -23,7 +23,10 @@ RULE = ("schedule space: task = fn entry, r <= 2 progress reports, return | rais
         "each of: synchronous run "
         "with actions from a second thread, synchronous run with actions from the progress callback / task body, "
         "asynchronous run with actions from the caller thread, asynchronous run with actions from the worker thread; "
-        "x outcome (3) x cooperative / non-cooperative task, with a result mapping function and a user callback. "
+        "x outcome (3) x cooperative / non-cooperative task, with a result mapping function and a user callback; and "
+        "for the iterated result form ({'results_list': [...]}, 3 iterations overriding the mapping parameters) r <= 1, "
+        "k <= 2 (k <= 3 for r = 0). The mapping function wraps its argument (not idempotent), so every extra "
+        "conversion of a dictionary or of an entry is visible as a deeper nesting. "
         "Plus sampled schedules (k <= 6, set_progress_callback, no mapping function, result dict without 'results', "
         "extra worker steps) and an argument stream (positional / keyword / preset / extra positional -> max_samples / "
         "passed twice / unknown / too many / with and without the progress_callback keyword; rejected execute followed "
@@ -40,7 +43,7 @@ ASSUMPTIONS = ["granularity: execute (check, parameter handling, start_run), eve
                "between an accepted execute and the entry into the task: these pairs are atomic in the driver (the "
                "theorems cover the fine-grained schedules)",
                "user progress callbacks return None, {} or {'cancel_requested': False} and do not raise; the result "
-               "mapping function does not raise; results_list conversion is not modelled",
+               "mapping function does not raise; every entry of a results_list has its 'results' and 'iteration' keys",
                "timestamps (durations) are not compared"]
 EXPLANATION = ("The model follows /repo as it is now (after fix commits 5d55599b: status readable during a synchronous "
                "run, and 53f68db6: progress_callback keyword consumed); the pre-repair behaviour is kept in the model as "
@@ -64,6 +67,11 @@ class _Abort(BaseException):
 
 class Escape(BaseException):
     """a task exception that is not an Exception"""
+
+
+def unpack(prog):
+    """(steps, out, coop, shape, pay, ppay[, iters]); iters = ((payload, ((key, value|None), ...)), ...) for shape 1"""
+    return tuple(prog) if len(prog) == 7 else tuple(prog) + ((),)
 
 
 def name_of(k):
@@ -143,7 +151,7 @@ class Run:
 
     def task(self, **kwargs):
         from perceval.runtime.check_cancel import cancel_requested
-        steps, out, coop, shape, pay, ppay = self.prog
+        steps, out, coop, shape, pay, ppay, iters = unpack(self.prog)
         self.calls.append(dict(kwargs))
         if not self.expect_start:
             self.unexpected_start = True
@@ -167,11 +175,16 @@ class Run:
         if not self.free_run:
             self.positions.append(("leaving",))
             self.arrived.release()
-        key = "results" if shape == 0 else "other"
+        def result(payload):
+            if shape == 1:      # the iterated form: one entry per iteration, each with its own 'iteration' dict
+                return {"results_list": [{"results": {"payload": ep, "args": dict(args)},
+                                          "iteration": {name_of(k): v for k, v in it}} for ep, it in iters],
+                        "meta": {"payload": payload, "args": args}}
+            return {"results" if shape == 0 else "other": {"payload": payload, "args": args}}
         if early:
-            return {key: {"payload": ppay, "args": args}}
+            return result(ppay)
         if out[0] == 0:
-            return {key: {"payload": pay, "args": args}}
+            return result(pay)
         if out[0] == 1:
             raise EXC_TYPES[out[1] % len(EXC_TYPES)](f"message {out[2]}")
         if pay % 2:
@@ -389,6 +402,17 @@ def enc_kw(d):
     return sorted([id_of(k), ([] if v is None else (0 if callable(v) else v))] for k, v in d.items())
 
 
+def unwrap(cur):
+    """strip the layers added by the (deliberately non-idempotent) mapping function: (inner, depth, outermost kw)"""
+    nconv, cargs = 0, []
+    while "conv" in cur:
+        if nconv == 0:
+            cargs = enc_kw(cur["kw"])
+        nconv += 1
+        cur = cur["conv"]
+    return cur, nconv, cargs
+
+
 def enc_ores(r):
     if r is None:
         return []
@@ -396,17 +420,28 @@ def enc_ores(r):
         return ["not-a-dict", repr(r)]
     if "results" in r:
         shape, cur = 0, r["results"]
+    elif "results_list" in r:
+        ents = []
+        for e in r["results_list"]:
+            inner, n, ca = unwrap(e["results"])
+            ents.append([inner["payload"], enc_kw(e["iteration"]), n, ca])
+        meta = r["meta"]
+        # the number of passes over the dictionary is visible on its entries only
+        return [[1, meta["payload"], sorted([k, v] for k, v in meta["args"].items()),
+                 ents[0][2] if ents else 0, [], ents]]
     elif "other" in r:
         shape, cur = 2, r["other"]
     else:
         return ["unknown-result", repr(r)]
-    nconv, cargs = 0, []
-    while "conv" in cur:
-        if nconv == 0:
-            cargs = enc_kw(cur["kw"])
-        nconv += 1
-        cur = cur["conv"]
-    return [[shape, cur["payload"], sorted([k, v] for k, v in cur["args"].items()), nconv, cargs]]
+    cur, nconv, cargs = unwrap(cur)
+    return [[shape, cur["payload"], sorted([k, v] for k, v in cur["args"].items()), nconv, cargs, []]]
+
+
+def norm_res(r):
+    """a model result in the form enc_ores produces (dictionary orders are not compared)"""
+    ents = [[e[0], sorted(e[1]), e[2], sorted(e[3])] for e in r[5]]
+    nconv = r[3] if (r[0] != 1 or ents) else 0
+    return [r[0], r[1], sorted(r[2]), nconv, sorted(r[4]), ents]
 
 
 def enc_get_error(e):
@@ -434,7 +469,7 @@ def enc_perr(e):
 def sort_state(st):
     """model state -> comparable with snapshot() (dictionary orders are not compared)"""
     st = list(st[:13])
-    st[6] = [[r[0], r[1], sorted(r[2]), r[3], sorted(r[4])] for r in st[6]]
+    st[6] = [norm_res(r) for r in st[6]]
     st[9] = sorted(st[9])
     st[10] = sorted(st[10])
     st[11] = [sorted(c) for c in st[11]]
@@ -444,7 +479,7 @@ def sort_state(st):
 def sort_obs(o):
     def fix_g(g):
         if g and g[0] == 0:
-            return [0, [[r[0], r[1], sorted(r[2]), r[3], sorted(r[4])] for r in g[1]]]
+            return [0, [norm_res(r) for r in g[1]]]
         return g
     if o[0] in (7, 10):
         return [o[0], fix_g(o[1])]
@@ -460,11 +495,11 @@ def enc_event(ev):
 
 def model_request(cfg, prog, events, old_code=False):
     names, cmd0, mapp0, has_map, ucb0 = cfg
-    steps, out, coop, shape, pay, ppay = prog
+    steps, out, coop, shape, pay, ppay, iters = unpack(prog)
     enc = lambda d: [[k, ([] if v is None else v)] for k, v in d]
     return (1800, [[list(names), enc(cmd0), enc(mapp0), int(has_map), [] if ucb0 is None else ucb0] +
                    ([[1, 1]] if old_code else []),
-                   [[list(s) for s in steps], list(out), int(coop), shape, pay, ppay],
+                   [[list(s) for s in steps], list(out), int(coop), shape, pay, ppay, [[ep, enc(it)] for ep, it in iters]],
                    [enc_event(e) for e in events]])
 
 
@@ -614,7 +649,7 @@ def nontrivial_schedule(events):
 
 def describe(cfg, prog, inline, events):
     names, cmd0, mapp0, has_map, ucb0 = cfg
-    steps, out, coop, shape, pay, ppay = prog
+    steps, out, coop, shape, pay, ppay, iters = unpack(prog)
 
     def ev(e):
         if e[0] == 0:
@@ -630,7 +665,8 @@ def describe(cfg, prog, inline, events):
             "preset_mapping": {name_of(k): v for k, v in mapp0}, "mapping_function": bool(has_map),
             "callback_at_construction": ucb0, "task": {"progress": [list(s) for s in steps],
             "outcome": ["return", "raise Exception", "raise BaseException"][out[0]], "cooperative": bool(coop),
-            "result_key": "results" if shape == 0 else "other"},
+            "result_key": {0: "results", 1: "results_list"}.get(shape, "other"),
+            "iterations": [{name_of(k): v for k, v in it} for _, it in iters]},
             "actions_issued_by": "worker thread (callback/task body)" if inline else "controller thread",
             "events": [ev(e) for e in events],
             "raw": {"cfg": cfg, "prog": prog, "inline": inline, "events": events}}
@@ -792,6 +828,15 @@ def witness(ctx, sig, cfg, prog, inline, events, idx, expected, what, ok=None, r
         ctx.fail(sig, what, describe(cfg, prog, inline, events), json.dumps(expected), json.dumps(obs, default=str))
 
 
+def rand_iters(g):
+    """0-3 iterations; each overrides some mapping parameters (possibly with None) and may carry foreign keys"""
+    out = []
+    for j in range(g.below(4)):
+        it = tuple((k, g.choice([None, 80 + g.below(9)])) for k in (0, 20, 21, 22) if g.below(3) == 0)
+        out.append((200 + j, it))
+    return tuple(out)
+
+
 def quiet_logger():
     try:
         from perceval.utils.logging import get_logger, channel, level
@@ -824,6 +869,19 @@ def run(ctx):
                         for k in range((kmax if r <= 1 or not ctx.quick() else 2) + 1):
                             for pos, acts in interleavings(r, k, "scgx"):
                                 cases.append((cfg, prog, inline, build(main, r, pos, acts, second)))
+    # the iterated result form ('results_list' with per-iteration overrides of the mapping parameters): every
+    # placement of k <= 2 actions (k <= 3 for r = 0), the same four ways of running
+    cfg_l = ((10,), ((10, None),), ((20, None), (21, 5)), True, 7)
+    iters = ((11, ((20, 9), (22, 1))), (12, ()), (13, ((21, None),)))
+    for is_async in (0, 1):
+        for inline in (False, True):
+            for r in (0, 1):
+                steps = tuple((250 * (j + 1), j + 1) for j in range(r))
+                prog = (steps, (0,), False, 1, 5, 6, iters)
+                main = (4, is_async, (3,), (), False)
+                for k in range((3 if r == 0 or not ctx.quick() else 2) + 1):
+                    for pos, acts in interleavings(r, k, "scgx"):
+                        cases.append((cfg_l, prog, inline, build(main, r, pos, acts, main)))
     ctx.log(f"exhaustive schedules: {len(cases)}")
     run_cases(ctx, cases, "exhaustive", reported)
     ctx.streams["exhaustive-schedules"] = len(cases)
@@ -837,7 +895,8 @@ def run(ctx):
         r = g.below(4)
         steps = tuple((g.choice([0, 125, 250, 500, 750, 1000]), g.below(4)) for _ in range(r))
         out = g.choice([(0,), (0,), (1, g.below(3), g.below(50)), (2,)])
-        prog = (steps, out, bool(g.below(2)), g.choice([0, 0, 2]), g.below(100), 100 + g.below(100))
+        shape = g.choice([0, 0, 1, 1, 2])
+        prog = (steps, out, bool(g.below(2)), shape, g.below(100), 100 + g.below(100), rand_iters(g) if shape == 1 else ())
         cfg = ((10, 11), ((10, None), (11, 4 if g.below(2) else None)), ((20, None),) if g.below(2) else (),
                bool(g.below(3)), g.choice([None, 6, 7, 8]))
         main_kw = ((11, 9),) if cfg[1][1][1] is None and g.below(2) else ()
@@ -909,7 +968,9 @@ def run(ctx):
         a, kws = call(g.below(4) != 0)
         ev.append((4, is_async, a, kws, bool(g.below(2))))
         ev += [(0,), (1,), (0,), (3,), (3,)]
-        prog = (((500, 1),), g.choice([(0,), (0,), (1, 0, 1)]), False, 0, g.below(50), 99)
+        shape = g.choice([0, 0, 1])
+        prog = (((500, 1),), g.choice([(0,), (0,), (1, 0, 1)]), False, shape, g.below(50), 99,
+                rand_iters(g) if shape == 1 else ())
         cases.append((cfg, prog, bool(g.below(2)), ev))
     run_cases(ctx, cases, "arguments", reported)
     ctx.streams["arguments"] = len(cases)
